@@ -28,6 +28,9 @@ vars == <<ns, alias, prog, expect, nimp, nref, nsec, phase, done>>
 
 Lower(s) == CASE s = "A" -> "a" [] s = "B" -> "b" [] s = "C" -> "c" [] s = "F" -> "f" [] s = "X" -> "x" [] s = "P" -> "p" [] s = "Q" -> "q"
               [] s = "Self" -> "self" [] s = "INT" -> "int" [] s = "TRUE" -> "true"
+              \* names with bytes >= 0x80 (U1 = an upper-case accented letter, u1 = its lower-case form, U2 = another upper-case one; the
+              \* harness spells them in Latin-1 and in UTF-8): PHP folds the ASCII letters only, so U1c / u1c / U2c stay three names
+              [] s = "U1C" -> "U1c"
               [] s = "Functionf" -> "functionf" [] s = "ConstC" -> "constc" [] s = "constC" -> "constc" [] OTHER -> s
 
 Key(k, name) == IF k = "const" THEN name ELSE Lower(name)         \* constant aliases are case-sensitive
